@@ -169,4 +169,43 @@ theorem all_of_sweepOk (g : Graph) (r : Mod) (ms : List Mod) (h : sweepOk g r ms
     | some _ => simp at this
   · cases h
 
+/-! ## two sequences ending in the same state -/
+
+/-- the observable part of two states is identical: the same modules loaded and finished, the same names bound in
+every module, bound to the same modules -/
+def sameNs (a b : State) : Bool :=
+  a.present == b.present && a.done == b.done && a.lo == b.lo && a.hi == b.hi && a.isMod == b.isMod && a.vals == b.vals
+
+/-- after the cold import of the root package: every import of `ms'` succeeds, and importing `ms` and importing `ms'`
+end in the same state -/
+def sweepsAgree (g : Graph) (r : Mod) (ms ms' : List Mod) : Bool :=
+  match importChain g (fresh g) [r] with
+  | (s1, none) => (importAll g s1 ms').2.all (·.isNone) && sameNs (importAll g s1 ms).1 (importAll g s1 ms').1
+  | _ => false
+
+theorem sameNs_val (g : Graph) (a b : State) (h : sameNs a b = true) :
+    (∀ x, a.isPresent x = b.isPresent x) ∧ (∀ x, a.isDone x = b.isDone x) ∧
+    (∀ x k, a.bound g x k = b.bound g x k) ∧ (∀ x k, a.val g x k = b.val g x k) := by
+  unfold sameNs at h
+  simp only [Bool.and_eq_true, beq_iff_eq] at h
+  obtain ⟨⟨⟨⟨⟨h1, h2⟩, h3⟩, h4⟩, h5⟩, h6⟩ := h
+  refine ⟨fun x => by simp [State.isPresent, h1], fun x => by simp [State.isDone, h2],
+    fun x k => by simp [State.bound, h3, h4], fun x k => by simp [State.val, State.bound, State.field, h3, h4, h5, h6]⟩
+
+theorem of_sweepsAgree (g : Graph) (r : Mod) (ms ms' : List Mod) (h : sweepsAgree g r ms ms' = true) :
+    (∀ e ∈ (importAll g (importChain g (fresh g) [r]).1 ms').2, e = none) ∧
+    sameNs (importAll g (importChain g (fresh g) [r]).1 ms).1 (importAll g (importChain g (fresh g) [r]).1 ms').1 = true := by
+  unfold sweepsAgree at h
+  split at h
+  · rename_i s1 heq
+    rw [heq]
+    simp only [Bool.and_eq_true, List.all_eq_true] at h
+    refine ⟨?_, h.2⟩
+    intro e he
+    have := h.1 e he
+    cases e with
+    | none => rfl
+    | some _ => simp at this
+  · cases h
+
 end Ioflo.Imports
